@@ -46,6 +46,24 @@ def call(case, api='func', shared=None):
                          burst_kwargs=kw.get('burst_kwargs'), thresholds=kw.get('threshold_kwargs'),
                          find_extrema_kwargs=kw.get('find_extrema_kwargs'),
                          return_samples=kw.get('return_samples', True))
+            how = case.get('obj_refit')
+            if how and getattr(sig, 'flags', None) is not None and sig.flags.writeable:
+                # the object has a history: it was fitted before on the SAME array object with the same fs and band - with another
+                # centring ('attribute'), or when the buffer held other samples ('buffer'); the fit that counts is the last one
+                try:
+                    if how == 'attribute':
+                        bm.center_extrema = 'trough' if bm.center_extrema == 'peak' else 'peak'
+                        bm.fit(sig, case['fs'], tuple(case['f_range']))
+                        bm.center_extrema = kw.get('center_extrema', 'peak')
+                    else:
+                        keep = sig.copy()
+                        sig[:] = keep[::-1]
+                        bm.fit(sig, case['fs'], tuple(case['f_range']))
+                        sig[:] = keep
+                except Exception:          # noqa: BLE001 - only the last fit is judged
+                    if how != 'attribute':
+                        sig[:] = keep
+                    bm.center_extrema = kw.get('center_extrema', 'peak')
             bm.fit(sig, case['fs'], tuple(case['f_range']))
             return bm.df_features, None
     except Exception as e:          # noqa: BLE001 - the outcome is data for the oracle
